@@ -59,6 +59,9 @@ pub fn unify(state: &mut TypeCheckerState, watchdog: &DynWatchdog) -> Result<()>
     let polling_interval = watchdog.poll_every();
     let mut counter = 0;
 
+    // The forest as the previous round left it, used to detect rounds that change nothing.
+    let mut previous_round: Option<UnificationForest> = None;
+
     // Then, we loop until we stop making progress.
     loop {
         // Create the set of new equalities.
@@ -154,6 +157,17 @@ pub fn unify(state: &mut TypeCheckerState, watchdog: &DynWatchdog) -> Result<()>
         if !made_progress {
             break;
         }
+
+        // A round that leaves the forest exactly as the previous round left it has reached a
+        // fixed point: every further round would perform the same merges and re-create the same
+        // judgements (this happens when a merge sends a judgement back into its own equivalence
+        // class, as for a packed encoding one of whose spans is typed by the class itself). No
+        // progress is possible, so we stop rather than looping forever, leaving the classes
+        // concerned with more than one inference for the caller to report.
+        if previous_round.as_ref() == Some(&forest) {
+            break;
+        }
+        previous_round = Some(forest.clone());
     }
 
     state.set_result(forest);
